@@ -241,6 +241,7 @@ def run(ctx):
             kind = 'batch-vs-single' if c['mismatch'] else 'summary-inconsistent'
             ws = c.get('min_ws') if c['mismatch'] and c.get('min_ws') else c['ws']
             vlib.violation(ctx, {'kind': kind, 'case': {'ws': ws}, 'diff': c.get('diff'), 'source': c.get('source'),
+                                 'linter_options': ws.get('opts') or [],
                                  'what': (c['mismatch'] or [bad_sum[0]['bad']])[0], 'all': c['mismatch'][:10]},
                            signature={'kind': kind, 'key': ws_sig(ws)})
             reported_compose = True
@@ -371,7 +372,14 @@ def run(ctx):
         'compose_cases': len(composes), 'subsets_linted': nsub, 'partitions_checked': sum(c['partitions'] for c in composes),
         'reports_summary_checked': len(sums),
         'compose_sources': src_hist,
-        'size_boundary_workspaces': sorted(c['sized'] for c in composes if c.get('sized')),
+        'size_boundary_workspaces': sorted(c['sized'] for c in composes if c.get('sized') and not c.get('opts')),
+        'linter_option_sets': (pool or {}).get('option_sets') or [],
+        'size_boundary_workspaces_under_linter_options': [
+            {'opts': c['opts'], 'files': c['sized'], 'runs_over_all_files': c['ws'].get('repeat', 1),
+             'file_run_pairs': sum(len(s['files']) for s in c['subsets'] if not s.get('err') and len(s['files']) > 1)}
+            for c in composes if c.get('sized') and c.get('opts')],
+        'compose_workspaces_under_linter_options': [{'opts': c['ws'].get('opts'), 'files': len(c['ws']['files']), 'lints': len(c['subsets'])}
+                                                    for c in composes if c.get('source') == 'generated-opts'],
         'size_boundary_files_checked_per_file': sum(len(s['files']) for c in composes if c.get('sized') for s in c['subsets'] if not s.get('err') and len(s['files']) > 1),
         'pool_modules_offered': (pool or {}).get('offered', 0), 'pool_modules_unparsable': (pool or {}).get('unparsable', []),
         'bundled_rules': len(rules_info), 'rules_with_report_and_aggregate': both, 'h_ops_tested': h_ops_tested,
@@ -392,6 +400,10 @@ def run(ctx):
         'operation, located in its own file) are tested, not proved: rule by rule on the lint query evaluated twice per module '
         '(hops_holds/hloc_holds), and end to end by the batch-vs-single comparison of Linter.Lint runs; the rules defining both '
         'report and aggregate are listed under rules_with_report_and_aggregate and each must have been triggered',
+        'the optional features of the linter (metrics, instrumentation, profiling, base cache, print hook, debug mode, exported '
+        'aggregates, collect query) are sampled: every single one, all of them together and a few combinations (every pair in the '
+        'thorough tier), not the full cross product; a defect that needs a particular interleaving of the per-file goroutines is '
+        'looked for by repetition (GOMAXPROCS = number of CPUs), not excluded',
         'files_failed counts the empty file name of location-less aggregate violations as a file (so it can exceed files_scanned); '
         'the theorem states it as the number of distinct Location.File values',
     ])
